@@ -273,7 +273,10 @@ func e2EncSigned(p e2pt) []byte {
 }
 
 // the encoding of [s]G + T for a point T of order 13: outside G2, and 13 times it is [13 s]G
-func simG2Plus13(s *big.Int) []byte {
+func simG2Plus13(s *big.Int) []byte { return simG2Plus13k(s, 1) }
+
+// [s]G + [k]T for the point T of order 13 (k = 12 is [s]G - T)
+func simG2Plus13k(s *big.Int, k int64) []byte {
 	simSmallOrderPoint("order13")
 	t, ok := e2Lift(e2DecX(dkgSmall["order13"]))
 	if !ok {
@@ -283,7 +286,7 @@ func simG2Plus13(s *big.Int) []byte {
 	if string(e2EncSigned(a)) != string(dkgEncG2(s)) {
 		panic("dkge2: exact encoding of [s]G differs from the library's")
 	}
-	enc := e2EncSigned(e2Add(a, t))
+	enc := e2EncSigned(e2Add(a, e2Mul(big.NewInt(k), t)))
 	if _, err := crypto.DecodePublicKey(crypto.BLSBLS12381, enc); err == nil || !strings.Contains(err.Error(), "valid group") {
 		panic("dkge2: [s]G + T is not classified as outside G2: " + errString(err))
 	}
